@@ -9,6 +9,12 @@ The models follow the code AFTER the repairs of branch fix-c05 (see known_findin
   * static_vector::insert(pos, n, x) checks `n <= capacity() - size()` (no wrap of `size() + n`),
   * set_bit/reset_bit/flip_bit/test_bit compare `pos` unsigned (no `static_cast<int>` wrap),
   * basic_inplace_string::erase(first, last) checks `start <= size()` and `distance <= size() - start`.
+and of branch fix-c05b:
+  * span::first<Count>() / last<Count>() / subspan<Offset, Count>() and the static-extent constructors check their
+    run-time preconditions,
+  * chrono::day / month accept 255 (`<=` instead of `<`),
+  * array<T, 0>::front() / back() check `Size != 0`, array<T, 0>::operator[] checks `false` (both configurations),
+  * basic_inplace_string::insert(index, ...) (7 overloads) and erase(index, count) check `index <= size()`.
 -/
 import Tetl.C05.Basic
 namespace Tetl.C05
@@ -366,6 +372,15 @@ def kLast := K fSP "span::last" "count <= size()"
 def kSubOff := K fSP "span::subspan" "offset <= size()"
 def kSubCnt := K fSP "span::subspan" "count != dynamic_extent ? (count <= size() - offset) : true"
 abbrev dyn : Nat := U64 - 1
+def kFirstT := K fSP "span::first" "Count <= size()"
+def kLastT := K fSP "span::last" "Count <= size()"
+def kSubOffT := K fSP "span::subspan" "Offset <= size()"
+def kSubCntT := K fSP "span::subspan" "Count == dynamic_extent or Count <= size() - Offset"
+/-- the static-extent constructors: 0 `(It, count)`, 1 `(R&&)`, 2 `(span<U, N> const&)` -/
+def kCtorExt (k : Nat) := K fSP "span::span" (match k with
+  | 0 => "extent == dynamic_extent or count == extent"
+  | 1 => "extent == dynamic_extent or ranges::size(r) == extent"
+  | _ => "extent == dynamic_extent or source.size() == extent")
 
 def at_ (i : Nat) : M Out := do guard kAt (fun s => i < s.size); let x ← rdAt i; pure [x]
 def front : M Out := do guard kFront (fun s => s.size != 0); let x ← rdAt 0; pure [x]
@@ -378,12 +393,43 @@ def subspan (off count : Nat) : M Out := do
   guard kSubCnt (fun s => if count != dyn then count ≤ s.size - off else true)
   let n ← getSize
   VW.sub off (if count == dyn then n - off else count)
+/-- `first<Count>()`, `last<Count>()`, `subspan<Offset, Count>()` on a span of dynamic extent -/
+def firstT (count : Nat) : M Out := do guard kFirstT (fun s => count ≤ s.size); VW.sub 0 count
+def lastT (count : Nat) : M Out := do
+  guard kLastT (fun s => count ≤ s.size); let n ← getSize; VW.sub (n - count) count
+def subspanT (off count : Nat) : M Out := do
+  guard kSubOffT (fun s => off ≤ s.size)
+  guard kSubCntT (fun s => if count != dyn then count ≤ s.size - off else true)
+  let n ← getSize
+  VW.sub off (if count == dyn then n - off else count)
+/-- `span<T, ext>(first, count)` / `(range)` / `(span<U, dynamic_extent>)` over the `size()` elements of the object -/
+def ctorExt (k ext : Nat) : M Out := do
+  guard (kCtorExt k) (fun s => ext == dyn || s.size == ext)
+  let n ← getSize
+  VW.sub 0 n
 end SP
 
 namespace AR
 def kAt (k : Nat) := K fAR "array::operator[]" "pos < Size" k
-/-- `array<T, Size>::operator[]`: checked only in the SAFE configuration -/
-def at_ (k : Nat) (i : Nat) : M Out := do guardSafe (kAt k) (fun s => i < s.size); let x ← rdAt i; pure [x]
+def kAtZ (k : Nat) := K fAR "array::operator[]" "false" k
+def kFront (k : Nat) := K fAR "array::front" "Size != 0" k
+def kBack (k : Nat) := K fAR "array::back" "Size != 0" k
+/-- `array<T, Size>::operator[]`: `if constexpr (Size == 0)` the check `false` (then `unreachable()`), else the index
+    check, which is compiled in only in the SAFE configuration -/
+def at_ (k : Nat) (i : Nat) : M Out := do
+  let n ← getSize
+  if n == 0 then do
+    guard (kAtZ k) (fun _ => false)
+    fun _ s => .oob s
+  else do
+    guardSafe (kAt k) (fun s => i < s.size)
+    let x ← rdAt i
+    pure [x]
+/-- `front()`: `*begin()` -/
+def front (k : Nat) : M Out := do guard (kFront k) (fun s => s.size != 0); let x ← rdAt 0; pure [x]
+/-- `back()`: `*prev(end())` -/
+def back (k : Nat) : M Out := do
+  guard (kBack k) (fun s => s.size != 0); let n ← getSize; let x ← rdAt (n - 1); pure [x]
 end AR
 
 /-! ## basic_inplace_string -/
@@ -404,6 +450,8 @@ def kReplCnt (k : Nat) := K fST (c ++ "replace") "pos + count < size()" k
 def kReplPos2 := K fST (c ++ "replace") "pos2 < str.size()"
 def kAt (k : Nat) := K fST (c ++ "unsafe_at") "index < size() + 1" k
 def kSet := K fST (c ++ "unsafe_set_size") "newSize <= Capacity"
+def kInsert (k : Nat) := if k == 5 then K fST (c ++ "insert") "pos <= size()" 0 else K fST (c ++ "insert") "index <= size()" (if k == 6 then 5 else k)
+def kEraseIdx := K fST (c ++ "erase") "index <= size()"
 
 /-- `unsafe_set_size(newSize)`: check, store the size, write the terminator through `unsafe_at(newSize)`.
     The terminator slot `buf[size]` always exists (the buffer has Capacity + 1 units). -/
@@ -467,6 +515,39 @@ def eraseRng (start distance : Nat) : M Out := do
   setSizeGuard (n - distance)
   shrinkTo (n - distance)
   pure [start]
+/-- `erase(index, count)`: the index check, `safeCount = min(count, size() - index)`, then `erase(first, last)` -/
+def eraseIdx (index count : Nat) : M Out := do
+  guard kEraseIdx (fun s => index ≤ s.size)
+  let n ← getSize
+  let _ ← eraseRng index (min count (n - index))
+  pure []
+/-- `append(str, count)`: `safeCount = min(count, capacity() - size())`, copy, `unsafe_set_size(size() + safeCount)` -/
+def appendClamped (xs : List Int) : M Unit := do
+  let n ← getSize
+  let cp ← getCap
+  let safe := min xs.length (cp - n)
+  let s ← getSt
+  setSizeGuard (n + safe)
+  putElems (s.elems ++ xs.take safe)
+/-- `insert_impl(begin() + index, text, count)`: append at the end, rotate into place -/
+def insertImpl (index : Nat) (xs : List Int) : M Unit := do
+  let n ← getSize
+  appendClamped xs
+  SV.rotateAt index n
+/-- `insert(index, s)` (k = 1), `(index, s, count)` (2), `(index, str)` (3), `(index, str, indexStr, count)` (4),
+    `(pos, view)` (5), `(index, view, indexStr, count)` (6): the index check, then one `insert_impl` of the units `xs` -/
+def insert (k index : Nat) (xs : List Int) : M Out := do
+  guard (kInsert k) (fun s => index ≤ s.size)
+  insertImpl index xs
+  pure []
+def insertEach (index : Nat) (ch : Int) : Nat → M Unit
+  | 0 => pure ()
+  | n + 1 => do insertImpl index [ch]; insertEach index ch n
+/-- `insert(index, count, ch)`: the index check, then `count` times `insert_impl(begin() + index, &ch, 1)` -/
+def insertFill (index count : Nat) (ch : Int) : M Out := do
+  guard (kInsert 0) (fun s => index ≤ s.size)
+  insertEach index ch count
+  pure []
 /-- overwrite `[pos, pos + m)` with the first `m` units of `src` -/
 def overwrite (pos : Nat) (src : List Int) : M Unit := fun _ s =>
   if pos + src.length ≤ s.elems.length then
@@ -571,32 +652,61 @@ end BS
 namespace SC
 def kBit (fn : String) (k : Nat := 0) := K ("_bit/" ++ fn ++ ".hpp") fn "pos < static_cast<UInt>(etl::numeric_limits<UInt>::digits)" k
 def kDiv := K "_numeric/div_sat.hpp" "div_sat" "y != 0"
-def kDay := K "_chrono/day.hpp" "day::day" "d < etl::numeric_limits<etl::uint8_t>::max()"
-def kMonth := K "_chrono/month.hpp" "month::month" "m < etl::numeric_limits<unsigned char>::max()"
+def kDay := K "_chrono/day.hpp" "day::day" "d <= etl::numeric_limits<etl::uint8_t>::max()"
+def kMonth := K "_chrono/month.hpp" "month::month" "m <= etl::numeric_limits<unsigned char>::max()"
 def kStride (l : String) := K ("_mdspan/" ++ l ++ ".hpp") (l ++ "::stride") (if l == "layout_stride" then "i < extents_type::rank()" else "r < extents_type::rank()")
 def kNull (file fn what : String) (k : Nat := 0) := K file fn (what ++ " != nullptr") k
 def kSetOrd := K "_set/static_set.hpp" "static_set::static_set" "last - first >= 0"
 def kSetFit := K "_set/static_set.hpp" "static_set::static_set" "static_cast<size_type>(last - first) <= max_size()"
 
+def kAddXY := K "_linalg/blas1_add.hpp" "add" "x.extents() == y.extents()"
+def kAddXZ := K "_linalg/blas1_add.hpp" "add" "x.extents() == z.extents()"
+def kCopyExt := K "_linalg/blas1_copy.hpp" "copy" "x.extents() == y.extents()"
+def kSwapExt := K "_linalg/blas1_swap_elements.hpp" "swap_elements" "x.extents() == y.extents()"
+def kMvpX := K "_linalg/blas2_matrix_vector_product.hpp" "matrix_vector_product" "a.extent(1) == x.extent(0)"
+def kMvpY := K "_linalg/blas2_matrix_vector_product.hpp" "matrix_vector_product" "a.extent(0) == y.extent(0)"
+def kToString := K "_string/to_string.hpp" "to_string" "res.error == etl::strings::from_integer_error::none"
+
+/-- the extents checks of `linalg::add(x, y, z)`, `copy(x, y)`, `swap_elements(x, y)` on rank-1 objects of `nx`, `ny`,
+    `nz` elements and of `matrix_vector_product(a, x, y)` with an `r x c` matrix, in source order (run by `nullChecks`:
+    the element loops follow only when every check passed) -/
+def linalgChecks (fn : String) (nx ny nz r c : Nat) : List (Key × Bool) :=
+  match fn with
+  | "add" => [(kAddXY, nx == ny), (kAddXZ, nx == nz)]
+  | "copy" => [(kCopyExt, nx == ny)]
+  | "swap" => [(kSwapExt, nx == ny)]
+  | _ => [(kMvpX, c == nx), (kMvpY, r == ny)]
+/-- `to_string<Capacity>(x)`: `from_integer` reports `overflow` unless the decimal text and its terminator fit -/
+def toStringChecks (cap : Nat) (x : Int) : List (Key × Bool) := [(kToString, (toString x).length + 1 ≤ cap)]
+
 def bitFns : List String := ["flip_bit", "reset_bit", "set_bit", "set_bit", "test_bit"]
-/-- the bit functions on a `w`-bit word (`which` 0 flip, 1 reset, 2 set, 3 set(value), 4 test): only the check
-    and the shift-count requirement `pos < w` of `UInt(1) << pos` -/
+/-- the bit functions on a `w`-bit word `UInt` (`which` 0 flip, 1 reset, 2 set, 3 set(value), 4 test), `pos` a `UInt` value.
+    The check compares two `UInt` values (`pos < static_cast<UInt>(digits)`); the damage is the shift `UInt(1) << pos`:
+    the left operand is promoted to `int` for 8/16-bit words, the shift is undefined for a count >= the width of the
+    promoted type. -/
 def bit (which w pos : Nat) : M Out := do
   let fn := bitFns.getD which "test_bit"
-  guard (kBit fn (if which == 3 then 1 else 0)) (fun _ => pos < w)
-  if pos < w then pure [] else (fun _ s => .oob s)
-/-- `div_sat(x, y)`: the check, then the division -/
-def divSat (y : Int) : M Out := do
+  guard (kBit fn (if which == 3 then 1 else 0)) (fun _ => pos % 2 ^ w < w % 2 ^ w)
+  if pos % 2 ^ w < max w 32 then pure [] else (fun _ s => .oob s)
+abbrev I32min : Int := -2147483648
+abbrev I32max : Int := 2147483647
+/-- `div_sat(x, y)` on `int`: the check, the saturation branch, then `x / y`; the damage is the division itself
+    (by zero, or a quotient that is not representable) -/
+def divSat (x y : Int) : M Out := do
   guard kDiv (fun _ => y != 0)
-  if y != 0 then pure [] else (fun _ s => .oob s)
+  if x == I32min && y == -1 then pure [I32max]
+  else if y == 0 then (fun _ s => .oob s)
+  else
+    let q := Int.tdiv x y
+    if q < I32min || I32max < q then (fun _ s => .oob s) else pure [q]
 /-- `day(d)` / `month(m)`: the member is initialised (truncated) first, then the check runs -/
 def dayCtor (d : Nat) : M Out := do
   putElems [(d % 256 : Nat)]
-  guard kDay (fun _ => d < 255)
+  guard kDay (fun _ => d ≤ 255)
   pure []
 def monthCtor (m : Nat) : M Out := do
   putElems [(m % 256 : Nat)]
-  guard kMonth (fun _ => m < 255)
+  guard kMonth (fun _ => m ≤ 255)
   pure []
 /-- `mapping::stride(r)` for a mapping of rank `size` -/
 def stride (l : String) (r : Nat) : M Out := do
@@ -633,15 +743,17 @@ inductive Op where
   | vwAt (i : Nat) | vwFront | vwBack | vwRemovePrefix (n : Nat) | vwRemoveSuffix (n : Nat)
   | vwCopy (count pos : Nat) | vwSubstr (pos count : Nat)
   | spAt (i : Nat) | spFront | spBack | spFirst (n : Nat) | spLast (n : Nat) | spSubspan (off count : Nat)
-  | arAt (k i : Nat)
+  | spFirstT (n : Nat) | spLastT (n : Nat) | spSubspanT (off count : Nat) | spCtorExt (k ext : Nat)
+  | arAt (k i : Nat) | arFront (k : Nat) | arBack (k : Nat)
   | strCtorPtr (xs : List Int) (len : Nat) | strCtorFill (n : Nat) (ch : Int) | strOpAssign (xs : List Int)
   | strAssignFill (n : Nat) (ch : Int) | strAssignPtr (xs : List Int) (n : Nat)
   | strFront (k : Nat) | strBack (k : Nat) | strAt (k i : Nat) | strPush (ch : Int) | strPop
   | strEraseRng (start dist : Nat) | strReplace (k pos count : Nat) (src : List Int)
   | strReplaceSub (pos count : Nat) (src : List Int) (pos2 count2 : Nat)
+  | strInsert (k index : Nat) (xs : List Int) | strInsertFill (index count : Nat) (ch : Int) | strEraseIdx (index count : Nat)
   | optDeref (k : Nat) | expDeref (k : Nat) | expError (k : Nat) | varIdx (k i : Nat) | varGet (k i : Nat)
   | bb (which pos : Nat) (v : Int) | bs (which pos : Nat) (v : Int) | bsCtor (pos n bits : Nat)
-  | bit (which w pos : Nat) | divSat (y : Int) | dayCtor (d : Nat) | monthCtor (m : Nat) | stride (l : String) (r : Nat)
+  | bit (which w pos : Nat) | divSat (x y : Int) | dayCtor (d : Nat) | monthCtor (m : Nat) | stride (l : String) (r : Nat)
   | nullChecks (ks : List (Key × Bool)) | setCtor (n : Nat) (ordered : Bool)
   deriving Repr, Inhabited
 
@@ -665,17 +777,19 @@ def run : Op → M Out
   | .vwCopy c p => VW.copy c p | .vwSubstr p c => VW.substr p c
   | .spAt i => SP.at_ i | .spFront => SP.front | .spBack => SP.back
   | .spFirst n => SP.first n | .spLast n => SP.last n | .spSubspan o c => SP.subspan o c
-  | .arAt k i => AR.at_ k i
+  | .spFirstT n => SP.firstT n | .spLastT n => SP.lastT n | .spSubspanT o c => SP.subspanT o c | .spCtorExt k e => SP.ctorExt k e
+  | .arAt k i => AR.at_ k i | .arFront k => AR.front k | .arBack k => AR.back k
   | .strCtorPtr xs n => STR.ctorPtr xs n | .strCtorFill n ch => STR.ctorFill n ch | .strOpAssign xs => STR.opAssign xs
   | .strAssignFill n ch => STR.assignFill n ch | .strAssignPtr xs n => STR.assignPtr xs n
   | .strFront k => STR.front k | .strBack k => STR.back k | .strAt k i => STR.at_ k i
   | .strPush ch => STR.pushBack ch | .strPop => STR.popBack
   | .strEraseRng a d => STR.eraseRng a d | .strReplace k p c src => STR.replace k p c src
   | .strReplaceSub p c src p2 c2 => STR.replaceSub p c src p2 c2
+  | .strInsert k i xs => STR.insert k i xs | .strInsertFill i n ch => STR.insertFill i n ch | .strEraseIdx i n => STR.eraseIdx i n
   | .optDeref k => OEV.optDeref k | .expDeref k => OEV.expDeref k | .expError k => OEV.expError k
   | .varIdx k i => OEV.varIdx k i | .varGet k i => OEV.varGet k i
   | .bb w p v => BS.bb w p v | .bs w p v => BS.bs w p v | .bsCtor p n b => BS.ctor p n b
-  | .bit wh w p => SC.bit wh w p | .divSat y => SC.divSat y | .dayCtor d => SC.dayCtor d | .monthCtor m => SC.monthCtor m
+  | .bit wh w p => SC.bit wh w p | .divSat x y => SC.divSat x y | .dayCtor d => SC.dayCtor d | .monthCtor m => SC.monthCtor m
   | .stride l r => SC.stride l r | .nullChecks ks => SC.nullChecks ks | .setCtor n o => SC.setCtor n o
 
 end Tetl.C05
